@@ -43,6 +43,7 @@ type Frame struct {
 	oldSt *State
 	depth int
 	pr    *pureResult
+	side  *[]T // (pure mode) type invariants of the values loaded while evaluating a spec
 }
 
 type loopInfo struct {
@@ -102,6 +103,7 @@ type Eng struct {
 	ifaceSeen  map[string]*types.Interface
 	tagTypes   map[string]types.Type
 	implDone   map[string]bool
+	missingLoops []int
 }
 
 type retEdge struct {
@@ -132,6 +134,7 @@ func (e *Eng) reset() {
 	e.quantified = false
 	e.sendCount = map[string]int{}
 	e.ownMods = nil
+	e.missingLoops = nil
 	e.tagTypes = map[string]types.Type{}
 	e.implDone = map[string]bool{}
 	if e.ifaceSeen == nil {
